@@ -6,6 +6,19 @@
 #include <occa/internal/utils/sys.hpp>
 
 namespace occa {
+  namespace {
+    // Entry counts and offsets are checked against the memory's length before they are
+    // scaled by the dtype size: for astronomically large requests the products wrap around
+    // and would pass the byte-range checks
+    inline void assertEntriesInRange(const dim_t entries,
+                                     const udim_t memoryBytes,
+                                     const int dtypeSize) {
+      OCCA_ERROR("Request of [" << entries << "] entries of [" << dtypeSize << "] bytes"
+                 << " is out of range for a memory of [" << memoryBytes << "] bytes",
+                 (entries < 0) || ((udim_t) entries <= (memoryBytes / dtypeSize)));
+    }
+  }
+
   memory::memory() :
       modeMemory(NULL) {}
 
@@ -169,6 +182,8 @@ namespace occa {
     if (!isInitialized()) return memory();
 
     const int dtypeSize = modeMemory->dtype_->bytes();
+    assertEntriesInRange(offset, modeMemory->size, dtypeSize);
+    assertEntriesInRange(count, modeMemory->size, dtypeSize);
     const dim_t offset_ = dtypeSize * offset;
     const dim_t bytes  = dtypeSize * ((count == -1)
                                       ? (length() - offset)
@@ -197,6 +212,8 @@ namespace occa {
     if (!isInitialized()) return;
 
     const int dtypeSize = modeMemory->dtype_->bytes();
+    assertEntriesInRange(count, modeMemory->size, dtypeSize);
+    assertEntriesInRange(offset, modeMemory->size, dtypeSize);
     const dim_t bytes  = dtypeSize * ((count == -1) ? length() : count);
     const dim_t offset_ = dtypeSize * offset;
 
@@ -223,6 +240,9 @@ namespace occa {
     src.assertInitialized();
 
     const int dtypeSize = modeMemory->dtype_->bytes();
+    assertEntriesInRange(count, modeMemory->size, dtypeSize);
+    assertEntriesInRange(destOffset, modeMemory->size, dtypeSize);
+    assertEntriesInRange(srcOffset, src.modeMemory->size, src.modeMemory->dtype_->bytes());
     const dim_t bytes  = dtypeSize * ((count == -1) ? length() : count);
     const dim_t destOffset_ = dtypeSize * destOffset;
     const dim_t srcOffset_ = src.modeMemory->dtype_->bytes() * srcOffset;
@@ -254,6 +274,8 @@ namespace occa {
     if (!isInitialized()) return;
 
     const int dtypeSize = modeMemory->dtype_->bytes();
+    assertEntriesInRange(count, modeMemory->size, dtypeSize);
+    assertEntriesInRange(offset, modeMemory->size, dtypeSize);
     const dim_t bytes  = dtypeSize * ((count == -1) ? length() : count);
     const dim_t offset_ = dtypeSize * offset;
 
@@ -280,6 +302,9 @@ namespace occa {
     dest.assertInitialized();
 
     const int dtypeSize = modeMemory->dtype_->bytes();
+    assertEntriesInRange(count, modeMemory->size, dtypeSize);
+    assertEntriesInRange(destOffset, dest.modeMemory->size, dest.modeMemory->dtype_->bytes());
+    assertEntriesInRange(srcOffset, modeMemory->size, dtypeSize);
     const dim_t bytes  = dtypeSize * ((count == -1) ? length() : count);
     const dim_t destOffset_ = dest.modeMemory->dtype_->bytes() * destOffset;
     const dim_t srcOffset_ = dtypeSize * srcOffset;
